@@ -511,8 +511,8 @@ def _checks(sz):
 
 def _cases(tier, seed):
     if tier == "quick":
-        sz = dict(n_frames=2, n_mol=4, n_at=5, seeds=1, named_seeds=12)
-        seeds = [seed]
+        sz = dict(n_frames=2, n_mol=4, n_at=5, seeds=3, named_seeds=20)
+        seeds = [seed * 1000 + k for k in range(3)]
     else:
         sz = dict(n_frames=3, n_mol=6, n_at=6, seeds=6, named_seeds=80)
         seeds = [seed * 1000 + 100 + k for k in range(6)]
